@@ -430,6 +430,7 @@ func checkC10(c *lib.Ctx) {
 		name string
 		do   func() error
 	}
+	var elines, eimpl []string
 	for _, ec := range ecases {
 		h.err = ec.Err
 		vias := []via{
@@ -443,6 +444,10 @@ func checkC10(c *lib.Ctx) {
 		code, msg := sftp.VerifStatusFromError(ec.Err)
 		direct := c10KindOfClientErr(sftp.VerifNormaliseError(sftp.VerifStatusError(code, msg, "")))
 		results := map[string]string{"direct": direct}
+		elines = append(elines, "c10.client "+ec.Term)
+		eimpl = append(eimpl, direct)
+		elines = append(elines, "c10.status "+ec.Term)
+		eimpl = append(eimpl, fmt.Sprint(code))
 		for _, v := range vias {
 			if ec.Err == nil && v.name == "Fileread-open" {
 				continue
@@ -482,4 +487,5 @@ func checkC10(c *lib.Ctx) {
 		}
 	}
 	h.err = nil
+	c.Compare("c10", elines, eimpl)
 }
